@@ -4,28 +4,10 @@ crate still compiles and the existing 122 tests still pass, then judged by the p
 usage: tools/mutcamp.py <max mutants per file> [file substring]"""
 import json, os, random, re, subprocess, sys, time
 ROOT = os.path.dirname(os.path.dirname(os.path.abspath(__file__)))
+sys.path.insert(0, ROOT)
 WT = '/tmp/mc'
 TGT = '/tmp/mc_target'
-FILES = {
-    'src/portfolio/bookkeeping/delta_list.rs': ['C01', 'C02', 'C03', 'C04'],
-    'src/portfolio/bookkeeping/superficial_loss.rs': ['C02', 'C15'],
-    'src/portfolio/bookkeeping/portfolio_status.rs': ['C04', 'C16'],
-    'src/portfolio/bookkeeping/costs.rs': ['C17', 'C09'],
-    'src/portfolio/cumulative_gains.rs': ['C06', 'C08'],
-    'src/portfolio/splits.rs': ['C15', 'C16', 'C09'],
-    'src/portfolio/misc.rs': ['C07', 'C08'],
-    'src/portfolio/summary.rs': ['C10'],
-    'src/portfolio/model/tx.rs': ['C01', 'C07', 'C10'],
-    'src/fx/io/rate_loader.rs': ['C12', 'C13'],
-    'src/portfolio/io/tx_loader.rs': ['C12'],
-    'src/app/approot.rs': ['C07', 'C08', 'C16', 'C04', 'C09', 'C10'],
-    'src/app/input_parse.rs': ['C16'],
-    'src/peripheral/broker/fx_tracker.rs': ['C18'],
-    'src/peripheral/broker/questrade.rs': ['C18'],
-    'src/peripheral/etrade_plan_pdf_tx_extract_impl.rs': ['C19'],
-    'src/peripheral/pdf.rs': ['C20'],
-    'src/peripheral/questrade_statement_fmv_impl.rs': ['C20'],
-}
+from tools.mutcamp_files import FILES
 OPS = [
     (r' <= ', ' < '), (r' < ', ' <= '), (r' >= ', ' > '), (r' > ', ' >= '), (r' == ', ' != '), (r' != ', ' == '),
     (r' \+ ', ' - '), (r' - ', ' + '), (r' && ', ' || '), (r' \|\| ', ' && '),
